@@ -180,6 +180,14 @@ func attributeValueClass(c context) (ret string) {
 			// Static text of the called template could still complete a scheme.
 			s += "AfterAction"
 		}
+		if sc == sanitizationContextTrustedResourceURL && dotsAroundAction(c.attr.value, ".") {
+			// e.g. `/a/.{{.X}}{{template "t"}}`: a dot of the called template may complete a
+			// ".." segment around an action, see validateTextAfterAction.
+			s += "EndingInDots"
+			if c.attr.dynamic {
+				s += "AfterAction"
+			}
+		}
 	}
 	return s
 }
